@@ -271,6 +271,21 @@ CHECKS["C20"] = dict(
     assumptions=["the builder is driven through its public constructor exactly as the wallet commands do; wallet scripts are P2TR/P2WPKH (fee estimation assumes key-path taproot inputs)", "checked build (overflow checks + debug assertions); the thorough tier repeats the workload on a release build"],
     crash_is_violation=True)
 
+WALLET_ASSUME = [
+    "the wallet is driven through the real command line: the harness binary re-executed under the name `ord` runs ord::main() built from /repo's current tree; node = mockcore (its wallet RPCs, largest-first funding among unlocked wallet outputs); explorer = the real server in-process; a recording proxy between the command line and the node gives the RPC history",
+    "wallet states are created by block injection (outputs paying addresses the mock wallet owns); scripts are not executed, signatures are the mock's",
+    "a mock-node panic or a command that exceeds the 120 s watchdog is inconclusive, never a verdict; checked build",
+]
+
+CHECKS["C23"] = dict(
+    level="exploration",
+    technique="history monitor at the RPC boundary: for every node-funded wallet command (send <amount>, mint, send/burn <runes>, split, offer create) run by the real command line on generated wallets whose inscribed and runic outputs are the largest ones, the recorded lockunspent / fundrawtransaction / sendrawtransaction calls and the node's mempool are checked: all non-cardinal wallet outputs locked (or own inputs) before funding, no input added by the node and no broadcast input is inscribed or runic",
+    level_text="Exploration over wallet states x commands: each generated wallet (2-5 cardinals of 30k-200k sat, 1-3 inscribed outputs and 1-6 runic outputs of 1-50 M sat, one or two runes, optionally both runes in one output, a mintable rune, a foreign inscription to bid for, with/without sat and address index) receives every applicable command in random order; tens of wallets and about 10^2 commands per quick run.",
+    rule="protected = wallet outputs that the index lists with inscriptions or rune balances (hook H2) just before the command; per command: (a) at each fundrawtransaction call every protected output is in an earlier lockunspent(false, ..) of this command or an input of the unfunded transaction; (b) funded inputs minus unfunded inputs contain no protected output; (c) no protected output other than the command's own inputs is spent by a transaction passed to sendrawtransaction or found in the mempool. distinct = wallet shape tuples.",
+    floors={"evaluations": 40, "wallets": 8, "fundrawtransaction_calls": 40, "lockunspent_calls": 40, "fund_calls_with_all_non_cardinals_locked": 40, "inputs_added_by_node": 20, "funded_send-amount": 3, "funded_mint": 2, "funded_send-runes": 3, "funded_burn-runes": 3, "funded_split": 2, "funded_offer-create": 3},
+    shards_quick=16, budget_quick=45, shards_thorough=16, budget_thorough=480, release_pass=False, miri=False,
+    assumptions=WALLET_ASSUME, crash_is_violation=True)
+
 codec("C27",
       "round-trip monitor: generated Inscription values written with ord's reveal-script builder (one or several per script, several inputs, arbitrary script prefix/suffix, five witness shapes incl. annex) and parsed back with ParsedEnvelope::from_transaction; independent encoders for the compact pointer / id / rune-commitment values; totality monitor on damaged scripts and random witnesses (every accessor of the result is called); a dead shard process (stack overflow, allocation failure) is a violation",
       "Exploration over field combinations and sizes (1, 75/76, 255/256, 519-521, 1039-1041, 65535/65536, up to 400 kB; values that look like script), 0-8 inscriptions per script, 1-3 inputs; pointer and index byte-length boundaries enumerated. Witness bytes are sampled (8 hostile script classes), not enumerated.",
